@@ -296,6 +296,11 @@ def check(ctx, rep):
     from rules.props import c12 as _c12
     rep.rule('R02.k', 'the bridge returns every error of ResolveRegistry::resume and runs the core only when the resolution was accepted', floor=1)
     _c12.check_resume_result(rep, 'R02.k', core, _c12.boundary_fns(core))
+    # R02.l: a response "reaches the task that asked" only if that task is still there: the task hosting a nested command is evicted when
+    # a wake made during its own poll leaves no trace, so every way of waking a task waker does the whole job (shared with C05 R05.b)
+    from rules.props import c05 as _c05
+    rep.rule('R02.l', 'every way of waking a task waker enqueues the task, marks it woken and wakes the parent, on every path', floor=5)
+    _c05.check_wake_impls(rep, 'R02.l', core, None)
     rep.rule('R02.i', 'the arity state of a resolver (typed or serialised) is written only inside its own resolve', floor=2)
     c09.check_entry_writers(rep, 'R02.i', core)
     rep.assume('futures::channel::mpsc::unbounded and crux_core::capability::channel return two halves of one fresh FIFO channel')
